@@ -47,8 +47,9 @@ func vCmd(cmds []consoleui.Command, key string) consoleui.Command {
 }
 
 func vSetCursor(m *mode) int {
-	cur := sym.Int("cursor")
-	sym.Assume(sym.And(cur >= 0, cur < m.view.Lines.Len()))
+	// every cursor position, enumerated (a symbolic position makes every line
+	// lookup fork through the solver; the set of positions is the same)
+	cur := sym.Choose(m.view.Lines.Len())
 	if err := m.view.Cursor.Set(cur); err != nil {
 		sym.Assert(false, "cursor positions inside the listing are valid")
 	}
